@@ -48,6 +48,10 @@ JudgeImage(k, c, es, rs, img, before, ps) ==
   \* C18, accepted side: whatever is emitted has count and length fields that agree with the content
   /\ Judge("C18", P_C02(k, img) /\ P_C03(k, c, es, rs, img, ref), F("fields_disagree_with_content", [emitted |-> Len(img)]))
   /\ Judge("C12", P_C12(k, c, es, rs, img), F("matrix", [emitted |-> Len(img)]))
+  \* an entry built with option calls and added to its table: the options govern bytes of the entry only -- the table
+  \* around it (Length, checksum, counts, the other entries) is the reference image for that entry
+  /\ Judge("C11", (Len(es) > 0 /\ es[Len(es)].op \in DOMAIN OpStruct /\ Len(CallsOf(es[Len(es)])) > 0) => img = ref,
+           F("entry_options_reach_outside_entry", [at |-> DiffAt(ref, img), emitted |-> Len(img)]))
   /\ Judge("C11", (k \in OptKinds) => C11Flags(k, c, es, rs, img), F("flag_union", [emitted |-> Len(img)]))
   /\ Judge("C11", (k \in OptKinds /\ Len(es) > 0 /\ before # <<>>) => C11Frame(k, c, es, rs, before, img),
            F("frame", [changed |-> IF Len(before) = Len(img) THEN DiffPos(before, img) ELSE {}]))
